@@ -441,6 +441,34 @@ harness!(dr_entry_replace_with__s8_4one, dr_entry, S8_4ONE, (Rep::ReplaceWith, F
 harness!(dr_entry_remove__s8_8g4, dr_entry, S8_8G4, (Rep::EntryRemove, Fin::Drop));
 harness!(dr_entry_insert__s8_4a, dr_entry, S8_4A, (Rep::EntryInsert, Fin::Drop));
 
+/// reserve / shrink_to_fit / extend may move every leftover at once: each exactly once
+fn dr_resize(sh: Shape, which: u8) {
+    let (mut m, mut lg) = start(sh);
+    match which {
+        0 => {
+            let n: usize = kani::any();
+            m.reserve(n);
+        }
+        1 => m.shrink_to_fit(),
+        _ => {
+            let k = lg.make_k(kani::any());
+            let v = lg.make_v(kani::any());
+            m.extend([(k, v)]);
+        }
+    }
+    let (nk, nv) = census(&m);
+    unsafe {
+        assert!(nk + DROPS_K == lg.created_k && nv + DROPS_V == lg.created_v, "[C06] an element was dropped (or duplicated) while the map still holds it");
+    }
+    drop(m);
+    lg.settle();
+    kani::cover!(true, "reach: end of harness");
+}
+harness!(dr_reserve__s8_4a, dr_resize, S8_4A, 0);
+harness!(dr_reserve__s8_8g4, dr_resize, S8_8G4, 0);
+harness!(dr_shrink_to_fit__s16_4a, dr_resize, S16_4A, 1);
+harness!(dr_extend1__s8_4a, dr_resize, S8_4A, 2);
+
 fn dr_clone(sh: Shape) {
     let (m, lg) = start(sh);
     let c = m.clone();
